@@ -217,10 +217,15 @@ In every reachable state, for every installed protocol `j`:
      peer — and for that attempt protocol `j` was/is being sent exactly one report
      (`ConnectionEstablished{peer}` of the connection carrying it or `DialFailure{peer, addresses}`)
      once the transport owes nothing for it, none before: `poutcome ps j a + inflight ps.g a = 1`;
-   * `failed` (`DialPeer` only): protocol `j` was/is being sent exactly one failure report for it,
-     `DialFailure{peer, []}`;
-   * `joined` / `connected` / `silent`: no report of its own (see `protocol_dial_joins` for what a
-     joined request is concluded by; `silent` is the `DialAddress` defect, see the witness below);
+   * `failed`: the queued dial failed (node at its connection limit, unsupported transport, own
+     address, no address, ...): protocol `j` was/is being sent exactly one failure report for it,
+     `failEv d` = `DialFailure{peer, []}` for `DialPeer` (fix `e94cf63`) and
+     `DialFailure{peer of the trailing /p2p, [address]}` for `DialAddress` (fix `transport manager
+     reports a dial failure to the protocols when a queued DialAddress command fails`);
+   * `joined` / `connected`: no report of its own (see `protocol_dial_joins` for what a joined
+     request is concluded by; `connected`: the connection's own `ConnectionEstablished`);
+   * never `silent`: no processed request ended with a merely logged error (the handle only queues
+     addresses that end in `/p2p`, so there is always a peer to report the failure for);
 3. the same ledger holds for every attempt the manager ever started, whoever asked for it — never
    two reports, never both a connection and a failure;
 4. `pall` is real delivery: when the manager is not blocked, what protocol `j` was sent is exactly
@@ -232,7 +237,8 @@ theorem protocol_dial_ledger {ps : PS} (h : PReach ps) (j : Nat) (hj : j ∈ ps.
       (∀ c, d.fate = .started c →
         ∃ a ∈ ps.g.ledger, a.conn = c ∧ a.peer = cmdPeer d.cmd ∧ poutcome ps j a + inflight ps.g a = 1) ∧
       (d.fate = .failed → pfailures ps j d.cmd.k = [failEv d]) ∧
-      (d.fate ≠ .failed → pfailures ps j d.cmd.k = [])) ∧
+      (d.fate ≠ .failed → pfailures ps j d.cmd.k = []) ∧
+      d.fate ≠ .silent) ∧
     (∀ a ∈ ps.g.ledger, poutcome ps j a + inflight ps.g a = 1 ∧ poutcome ps j a ≤ 1) ∧
     (ps.todo = [] → pall ps j = ps.recv j ++ (ps.chans j).filterMap slotEv) := by
   have hi := pinv_reach h
@@ -255,7 +261,7 @@ theorem protocol_dial_ledger {ps : PS} (h : PReach ps) (j : Nat) (hj : j ∈ ps.
       intro x _
       rw [Bool.and_comm]
     rw [hsingle] at hpf
-    refine ⟨?_, ?_, ?_⟩
+    refine ⟨?_, ?_, ?_, hi.noSilent d hd⟩
     · intro c hc
       obtain ⟨a, ha, h1, h2⟩ := hi.started d hd c hc
       exact ⟨a, ha, h1, h2, by rw [poutcome_eq hi hj]; exact dial_ledger hi.reach a ha⟩
@@ -401,18 +407,19 @@ example :
       (1, ⟨.df, 1, 0, [[.ip4 1, .tcp 1, .p2p 1]], .conn 0⟩) :: [] := by
   decide
 
-/-- **Genuine defect, kept as a witness.** The full statement "every accepted dial request of a
-protocol is concluded by a report" fails for `dial_address` requests whose queued command fails: the
-`DialAddress` arm of `next()` only logs the error (the `DialPeer` arm was repaired by `e94cf63`). Here
-the node is at its outgoing-connection limit: the request is accepted, processed, and nobody is told.
-(No protocol inside the crate calls `TransportService::dial_address`; recorded as known finding
-`queued-dial-address-failure-is-silent`.) -/
-theorem protocol_dial_address_error_silent_witness :
-    (runP (PS.init ⟨none, some 0⟩ 2 [0]) [.pdialAddr 0 [.ip4 1, .tcp 1, .p2p 1], .runCmd []]).done =
-        [⟨.dialAddress 0 0 [.ip4 1, .tcp 1, .p2p 1], .silent⟩] ∧
-    (runP (PS.init ⟨none, some 0⟩ 2 [0]) [.pdialAddr 0 [.ip4 1, .tcp 1, .p2p 1], .runCmd []]).bcast = [] ∧
-    (runP (PS.init ⟨none, some 0⟩ 2 [0]) [.pdialAddr 0 [.ip4 1, .tcp 1, .p2p 1], .runCmd []]).todo = [] ∧
-    (runP (PS.init ⟨none, some 0⟩ 2 [0]) [.pdialAddr 0 [.ip4 1, .tcp 1, .p2p 1], .runCmd []]).cmds = [] := by
+/-- Non-vacuity of the `failed` case for `dial_address` requests (formerly the defect "a queued
+`DialAddress` that fails is only logged", now repaired): at the outgoing-connection limit the
+request is accepted, the queued command fails, and the protocol is sent
+`DialFailure{1, [address]}` — exactly once. An address that does not end in `/p2p` is refused by the
+handle and queues nothing. -/
+example :
+    let ps := runP (PS.init ⟨none, some 0⟩ 2 [0]) [.pdialAddr 0 [.ip4 1, .tcp 1, .p2p 1], .runCmd []]
+    ps.done = [⟨.dialAddress 0 0 [.ip4 1, .tcp 1, .p2p 1], .failed⟩] ∧ ps.cmds = [] ∧ ps.todo = [] ∧
+    pfailures ps 0 0 = [⟨.df, 1, 0, [[.ip4 1, .tcp 1, .p2p 1]], .cmd 0⟩] ∧
+    failEv ⟨.dialAddress 0 0 [.ip4 1, .tcp 1, .p2p 1], .failed⟩ = ⟨.df, 1, 0, [[.ip4 1, .tcp 1, .p2p 1]], .cmd 0⟩ ∧
+    ps.chans 0 = [.ev ⟨.df, 1, 0, [[.ip4 1, .tcp 1, .p2p 1]], .cmd 0⟩] ∧
+    (pstep (PS.init ⟨none, none⟩ 2 [0]) (.pdialAddr 0 [.ip4 1, .tcp 1, .p2p 1, .ws])).2.hres = some (some .nopeerid) ∧
+    (pstep (PS.init ⟨none, none⟩ 2 [0]) (.pdialAddr 0 [.ip4 1, .tcp 1, .p2p 1, .ws])).1.cmds = [] := by
   decide
 
 #print axioms no_dup_outcome
@@ -424,6 +431,5 @@ theorem protocol_dial_address_error_silent_witness :
 #print axioms protocol_dial_ledger
 #print axioms protocol_dial_joins
 #print axioms protocol_notified_despite_full_channel
-#print axioms protocol_dial_address_error_silent_witness
 
 end Litep2pVerif.Props.C05
